@@ -24,9 +24,9 @@ func (s *state) resolveCallee(d ssa.CallInstruction, strict bool) (*ssa.Function
 			for _, b := range mc.Bindings {
 				cv.binds = append(cv.binds, s.get(b))
 			}
-			return f, u.eng.contractFor(f), cv
+			return f, u.calleeContract(f), cv
 		}
-		return f, u.eng.contractFor(f), nil
+		return f, u.calleeContract(f), nil
 	}
 	// a function-typed parameter of a function under contract: callback contract Outer@param
 	if p, ok := c.Value.(*ssa.Parameter); ok {
@@ -49,7 +49,7 @@ func (s *state) resolveCallee(d ssa.CallInstruction, strict bool) (*ssa.Function
 			if g, ok := un.X.(*ssa.Global); ok {
 				if iv, ok := u.eng.immutableInit(g); ok {
 					if f, ok := iv.(*ssa.Function); ok {
-						return f, u.eng.contractFor(f), nil
+						return f, u.calleeContract(f), nil
 					}
 				}
 			}
@@ -67,14 +67,34 @@ func (s *state) resolveCallee(d ssa.CallInstruction, strict bool) (*ssa.Function
 	}
 	id := fv.S[0]
 	if cv, ok := u.closures[id]; ok {
-		return cv.fn, u.eng.contractFor(cv.fn), cv
+		return cv.fn, u.calleeContract(cv.fn), cv
 	}
 	if n, ok := litInt(id); ok {
 		if f := u.eng.funcByID[int(n)]; f != nil {
-			return f, u.eng.contractFor(f), nil
+			return f, u.calleeContract(f), nil
 		}
 	}
 	return nil, nil, nil
+}
+
+// calleeContract: the contract a call site sees. A function may carry a second, trusted
+// contract `Name~callers` - the abstraction its callers in other layers reason with (the real
+// contract is the one verified against the body); units that list the function under
+// `concrete` see the real one.
+func (u *unit) calleeContract(f *ssa.Function) *funcContract {
+	fc := u.eng.contractFor(f)
+	if f == nil || f.Pkg == nil {
+		return fc
+	}
+	if pc := u.eng.contracts[f.Pkg.Pkg.Path()]; pc != nil {
+		if ab := pc.funcs[funcKey(f)+"~callers"]; ab != nil {
+			if u.ct != nil && u.ct.concrete[funcKey(f)] {
+				return fc
+			}
+			return ab
+		}
+	}
+	return fc
 }
 
 func (e *engine) immutableInit(g *ssa.Global) (ssa.Value, bool) {
@@ -174,7 +194,11 @@ func (s *state) doCall(b *ssa.BasicBlock, ii int, d *ssa.Call) bool {
 	}
 	wantInline := callee != nil && u.ct != nil && u.ct.inline[funcKey(callee)]
 	if fc != nil && !wantInline {
+		if cv != nil {
+			s.cvBinds = cv.binds
+		}
 		s.vals[d] = s.applyContract(fc, callee, args, d, d.Type())
+		s.cvBinds = nil
 		s.runSite(b.Parent(), fmt.Sprintf("after call %s %d", cs.name, cs.k), d.Pos(), nil)
 		if fc.neverReturns {
 			s.endPath()
@@ -266,6 +290,10 @@ func (s *state) doReturn(rs []Val, d *ssa.Return) {
 	site := fmt.Sprintf("ret%d", u.returnOrd(d))
 	s.runSite(u.fn, fmt.Sprintf("return %d", u.returnOrd(d)), d.Pos(), rs)
 	s.runSite(u.fn, "return", d.Pos(), rs)
+	if u.ct.neverReturns && !u.ct.trusted {
+		s.oblige("noreturn", "", "the function never returns", "false", d.Pos(), site, false)
+		return
+	}
 	if u.ct.panicsIf != nil {
 		e.what = "panics-unless " + u.ct.panicsIf.src
 		oe := *e
